@@ -1528,6 +1528,11 @@ def _start_flow(state: State, flow_state: FlowState, event_arguments: dict) -> N
             )
 
 
+# Uids of the flow instances that are being aborted / finished at the moment. A flow that was activated by one
+# of its own descendants is its own indirect child: without this the child flows would be ended recursively for ever.
+_flows_being_ended: Set[str] = set()
+
+
 def _abort_flow(
     state: State,
     flow_state: FlowState,
@@ -1535,6 +1540,21 @@ def _abort_flow(
     deactivate_flow: bool = False,
 ) -> None:
     """Abort a flow instance and all its active child flows and decrement number of references of activated flow."""
+    if flow_state.uid in _flows_being_ended:
+        return
+    _flows_being_ended.add(flow_state.uid)
+    try:
+        _abort_flow_once(state, flow_state, matching_scores, deactivate_flow)
+    finally:
+        _flows_being_ended.discard(flow_state.uid)
+
+
+def _abort_flow_once(
+    state: State,
+    flow_state: FlowState,
+    matching_scores: List[float],
+    deactivate_flow: bool = False,
+) -> None:
 
     if deactivate_flow and _is_reference_activated_flow(state, flow_state):
         # It's a reference activated flow
@@ -1631,6 +1651,21 @@ def _finish_flow(
     deactivate_flow: bool = False,
 ) -> None:
     """Finish a flow instance and all its active child flows and decrement number of references of activated flow."""
+    if flow_state.uid in _flows_being_ended:
+        return
+    _flows_being_ended.add(flow_state.uid)
+    try:
+        _finish_flow_once(state, flow_state, matching_scores, deactivate_flow)
+    finally:
+        _flows_being_ended.discard(flow_state.uid)
+
+
+def _finish_flow_once(
+    state: State,
+    flow_state: FlowState,
+    matching_scores: List[float],
+    deactivate_flow: bool = False,
+) -> None:
 
     if deactivate_flow and _is_reference_activated_flow(state, flow_state):
         # It's a reference activated flow
